@@ -107,7 +107,8 @@ def action_c(rule_no, ops, backend, lineno_on, bol_obs):
         elif k == 'more':
             out.append(a['more'])
         elif k == 'setbol':
-            out.append(a['setbol'] % (1 if o[1] else 0))
+            # (any non-zero argument means 'at the beginning of a line')
+            out.append(a['setbol'] % ([1, 2, 7, -1][(rule_no + len(out)) % 4] if o[1] else 0))
         elif k == 'return':
             out.append(a['ret'] % o[1])
         elif k == 'terminate':
